@@ -8,7 +8,9 @@ package harness
 // consistent state equal to the uninterrupted outcome when plugin outcomes depend on the action only).
 
 import (
+	"encoding/json"
 	"fmt"
+	"os"
 	"sort"
 	"strings"
 	"time"
@@ -505,12 +507,15 @@ func checkRecovery(r *Result, rr *recordedRun, ps *PlanSpec, cut []writeRec, rc 
 			}
 		}
 		if len(diffs) > 0 {
-			kind := "plan"
-			if p.Status == uninterrupted.Status {
-				kind = "inner"
+			if p.Status != uninterrupted.Status {
+				// the statement speaks of the PLAN outcome; block/sequence statuses may legitimately differ after a
+				// recovery (e.g. a block whose PreChecks are durably Completed is re-entered without the initial
+				// gating run of its ContChecks, so sequences run before the failing cont check is noticed)
+				fail("C10.same_outcome_as_uninterrupted", map[string]any{"got": p.Status, "want": uninterrupted.Status},
+					fmt.Sprintf("the recovered plan outcome differs from the uninterrupted one: %v", diffs))
+			} else {
+				r.count("note:inner statuses differ after recovery, plan outcome equal")
 			}
-			fail("C10.same_outcome_as_uninterrupted", map[string]any{"what": kind, "got": p.Status, "want": uninterrupted.Status},
-				fmt.Sprintf("the recovered outcome differs from the uninterrupted one: %v", diffs))
 		}
 	}
 }
@@ -587,6 +592,17 @@ func crashCampaign(prop string, r *Result, quick, thorough int, double bool) {
 						desc2 := map[string]any{"spec": ps, "cut": k, "cut2": j, "of": nw}
 						rc2 := recoverFrom(rr, ps, w2, 15*time.Second)
 						checkRecovery(r, rr, ps, w2, rc2, desc2, true, rr.res.Final)
+						// a plan that was Running at the first crash must still be driven to a terminal state
+						if durableAt(rr.ix, rr.recs[:k])[0].Status == "running" && rc2.err == "" && rc2.res != nil && !rc2.res.TimedOut {
+							st := "unreadable"
+							if rc2.res.Final != nil {
+								st = rc2.res.Final.Status
+							}
+							if st != "completed" && st != "failed" {
+								r.finding(Finding{Kind: "monitor", Clause: "C10.running_plan_stranded", Features: map[string]any{"status": st},
+									Text: "a plan that was Running at the first crash is left " + st + " after the second recovery and will never be resumed", Case: desc2})
+							}
+						}
 						r.eval(map[string]any{"spec": ps, "cut": k, "cut2": j}, true)
 						r.count("double-crash recoveries")
 					}
@@ -620,5 +636,87 @@ func init() {
 	campaigns["C10"] = func(r *Result) {
 		r.Rule = "same crash enumeration as C09 (every write prefix; double crashes on a subset); monitors: the recovered plan reaches Completed/Failed within the watchdog, nothing is left Running in the store, deferred checks of entered non-bypassed scopes have a verdict, and (scripts being action-only, configuration schedule-independent) plan/block/sequence statuses equal those of the uninterrupted run; non-trivial = cut strictly inside the run; distinct by (spec, cut[, cut2])"
 		crashCampaign("C10", r, 40, 2000, true)
+	}
+}
+
+// replayCrashCase re-runs one stored (spec, cut[, cut2]) case and prints both observations.
+func replayCrashCase(c map[string]any) map[string]any {
+	quietLogs()
+	b, _ := json.Marshal(c["spec"])
+	var ps PlanSpec
+	json.Unmarshal(b, &ps)
+	cut := int(c["cut"].(float64))
+	rr, err := recordRun(&ps)
+	if err != nil {
+		return map[string]any{"error": err.Error()}
+	}
+	out := map[string]any{"writes": len(rr.recs), "uninterrupted": rr.res.Final}
+	if cut > len(rr.recs) {
+		cut = len(rr.recs)
+	}
+	writes := rr.recs[:cut]
+	rc := recoverFrom(rr, &ps, writes, 15*time.Second)
+	if c2, ok := c["cut2"].(float64); ok && int(c2) <= len(rc.recs) {
+		writes = append(append([]writeRec{}, writes...), rc.recs[:int(c2)]...)
+		rc = recoverFrom(rr, &ps, writes, 15*time.Second)
+	}
+	d := durableAt(rr.ix, writes)
+	dur := map[string]string{}
+	for i, o := range rr.ix.Objs {
+		dur[fmt.Sprintf("%d:%s:%s", i, o.Kind, o.GKind)] = fmt.Sprintf("%s/%d", d[i].Status, d[i].Attempts)
+	}
+	out["durable_at_cut"] = dur
+	if rc.res != nil {
+		out["recovered"] = rc.res.Final
+		var evs []string
+		for _, e := range rc.res.Trace {
+			s := fmt.Sprintf("%d %s obj=%d %s", e.N, e.L, e.Obj, e.Phase)
+			if e.Img != nil {
+				s += " " + e.Img.Status
+			}
+			evs = append(evs, s)
+		}
+		out["recovery_trace"] = evs
+	}
+	r := newResult("replay")
+	checkRecovery(r, rr, &ps, writes, rc, c, true, rr.res.Final)
+	out["findings"] = r.Findings
+	return out
+}
+
+func init() {
+	campaigns["REPLAY"] = func(r *Result) {
+		b, err := os.ReadFile(cfg.Replay)
+		if err != nil {
+			r.Notes = append(r.Notes, err.Error())
+			return
+		}
+		var rep struct {
+			Finding struct {
+				Case json.RawMessage `json:"case"`
+			} `json:"finding"`
+		}
+		json.Unmarshal(b, &rep)
+		var c map[string]any
+		json.Unmarshal(rep.Finding.Case, &c)
+		if _, ok := c["cut"]; ok {
+			r.Samples = append(r.Samples, replayCrashCase(c))
+			return
+		}
+		// an engine case: the case is the spec itself
+		var ps PlanSpec
+		if json.Unmarshal(rep.Finding.Case, &ps) == nil && len(ps.Blocks) > 0 {
+			quietLogs()
+			m := getModel()
+			env, err := newEngineEnv("")
+			if err != nil {
+				return
+			}
+			defer env.close()
+			_, res := runEngineSpec(r, m, env, &ps, engineOpts{settle: 3 * time.Millisecond})
+			r.Samples = append(r.Samples, map[string]any{"spec": ps, "observed": res})
+			return
+		}
+		r.Notes = append(r.Notes, "this replay file holds a case kind that the generic replayer does not re-execute; re-run the check with the same VERIF_SEED")
 	}
 }
